@@ -130,6 +130,38 @@ func checkScale(resp *hResp, name, header string, worker func(<-chan string, cha
 		resp.Findings = append(resp.Findings, hFinding{name, map[string]interface{}{"scale": name}, fmt.Sprintf("%d P and %d Q values", len(r.P), len(r.Q)), fmt.Sprintf("%d value columns", len(cols))})
 		return
 	}
+	// a row must keep its own values while the same worker goes on to its next file: the report writer may be stalled
+	// (rows travel through a channel to another goroutine), so the row of file 1 is looked at only after the worker has
+	// delivered the row of file 2 (seed R8-H: result buffers reused across files)
+	{
+		size2 := size
+		if size2 > 125000 {
+			size2 = 125000
+		}
+		buf2 := make([]byte, size2)
+		rand.New(rand.NewSource(seed + 8)).Read(buf2)
+		file2 := filepath.Join(dir, "sample8.bin")
+		ioutil.WriteFile(file2, buf2, 0644)
+		jobs2 := make(chan string)
+		out2 := make(chan *R)
+		go worker(jobs2, out2)
+		jobs2 <- file
+		r1 := <-out2
+		jobs2 <- file2
+		r2 := <-out2
+		close(jobs2)
+		resp.Cases[name]++
+		same := r1.Name == r.Name && len(r1.P) == len(r.P) && len(r1.Q) == len(r.Q)
+		for i := 0; same && i < len(r.P); i++ {
+			same = (r1.P[i] == r.P[i] || (r1.P[i] != r1.P[i] && r.P[i] != r.P[i])) && (r1.Q[i] == r.Q[i] || (r1.Q[i] != r1.Q[i] && r.Q[i] != r.Q[i]))
+		}
+		if !same || r2.Name != "sample8.bin" {
+			resp.Findings = append(resp.Findings, hFinding{name, map[string]interface{}{"scale": name, "files": []string{"sample7.bin", "sample8.bin"}, "file_seed": seed + 7, "file_bytes": size, "second_file_bytes": size2,
+				"schedule": "row of the first file read after the same worker delivered the row of the second file"},
+				fmt.Sprintf("row %s: P=%v Q=%v", r1.Name, r1.P, r1.Q), fmt.Sprintf("row %s with the values of a single-file run: P=%v Q=%v", r.Name, r.P, r.Q)})
+			return
+		}
+	}
 	// the row as the writer formats it
 	var w bytes.Buffer
 	var wg sync.WaitGroup
@@ -283,6 +315,9 @@ func TestVerifHarness(t *testing.T) {
 				// the 10^8-bit worker and header on a 4*10^6-bit file: the column/header correspondence does not depend on the
 				// file size, and a full-size file costs hours (linear complexity with m = 5000 on 10^8 bits, twice)
 				checkScale(resp, name, Header_1E8, worker_1E8, 500000, req.Seed)
+			} else {
+				// quick replays: a 2*10^5-bit file (about 10 s per worker run)
+				checkScale(resp, name, Header_1E8, worker_1E8, 25000, req.Seed)
 			}
 		default:
 			resp.Errors = append(resp.Errors, "unknown check "+name)
